@@ -44,6 +44,7 @@ type c15LCase struct {
 	Ver   string     `json:"ver"`
 	CidS  int        `json:"cidS"`
 	CidC  int        `json:"cidC"`
+	MTU   int        `json:"mtu"` // 0 = default; small values fragment the ServerHello
 	Steps []c15LStep `json:"steps"`
 }
 
@@ -77,9 +78,12 @@ func runC15Listen(idx int, cc *c15LCase) (row c15LRow) { //nolint:cyclop,gocogni
 	}()
 	p := getPKI()
 	vmin, vmax := verRange(cc.Ver)
-	ln, err := ListenWithOptions("udp4", &net.UDPAddr{IP: net.IPv4(127, 0, 0, 1)},
-		WithCertificates(p.server), WithMinVersion(vmin), WithMaxVersion(vmax),
-		WithConnectionIDGenerator(cidGen(cc.CidS)), WithFlightInterval(300*time.Millisecond))
+	lopts := []ServerOption{WithCertificates(p.server), WithMinVersion(vmin), WithMaxVersion(vmax),
+		WithConnectionIDGenerator(cidGen(cc.CidS)), WithFlightInterval(300 * time.Millisecond)}
+	if cc.MTU > 0 {
+		lopts = append(lopts, WithMTU(cc.MTU))
+	}
+	ln, err := ListenWithOptions("udp4", &net.UDPAddr{IP: net.IPv4(127, 0, 0, 1)}, lopts...)
 	if err != nil {
 		row.Lab = err.Error()
 
